@@ -300,11 +300,13 @@ globals().update(_w)
 _watch = %(watch)r            # objects that are never the in-place target of a step
 _steps = %(steps)r
 _before = {}
+_scale = {}
 np.random.seed(0)
 for _c in _steps + [None]:
     for k in _watch:
         if k in globals() and k not in _before:
             _before[k] = np.array(c13_dense(globals()[k]), dtype=complex)   # value when first seen / created
+            _scale[k] = c13_scale(globals()[k])
     if _c is not None:
         print(">>>", _c.replace("\n", "\n    "))
         exec(_c, globals())
@@ -313,7 +315,7 @@ for k in _watch:
     _after = np.array(c13_dense(globals()[k]), dtype=complex)
     _d = float(np.abs(_after - _before[k]).max()) if _after.shape == _before[k].shape else float("inf")
     print("object", k, "(never an in-place target): max |change of tensors x prefactor| =", _d)
-    if not _d <= 1e-12 * max(1.0, float(np.abs(_before[k]).max())):
+    if not _d <= 1e-12 * max(1.0, float(np.abs(_before[k]).max()), _scale[k]):
         _bad = 1
 sys.exit(_bad)
 '''
